@@ -115,10 +115,11 @@ func (c *Ctx) loadVariants(l int) []Variant {
 }
 
 // Sigma is the Unicode probe alphabet of DESIGN 4.C04: strings chosen to hit
-// each normalisation mechanism.
+// each normalisation mechanism, plus NUL (a byte an implementation might use
+// internally as a delimiter).
 var Sigma = []string{
 	"a", "\u0020", "\u3000", "\u00e9", "e\u0301", "\uff21", "\u334d", "\uff76\uff9e", "\u0323", "\u0307",
-	"\uac00", "\ufb01", "\u1e9b\u0323", "\u2126", "\ufdfa", "\U0001f600",
+	"\uac00", "\ufb01", "\u1e9b\u0323", "\u2126", "\ufdfa", "\U0001f600", "\x00",
 }
 
 // sigmaStrings returns all concatenations of at most k letters of Sigma.
